@@ -46,6 +46,8 @@ func runC14(c *Ctx, pr *PropertyRun) {
 	decodePropTable(c, pr, "C14")
 	// "returns without hanging": the streamed upload (shared with C18.upload)
 	c18Upload(c, pr, "C14")
+	// per-response holders are fresh (a tolerated 404 leaves the zero value)
+	freshHolderRule(c, pr, "C14")
 }
 
 func c14Gate(c *Ctx, pr *PropertyRun, entries []*ssa.Function) {
